@@ -1616,3 +1616,14 @@ package gojq
 //@   ensures (v is string) ==> (r is string) && r.(string) == "string"
 //@   ensures (v is []any) ==> (r is string) && r.(string) == "array"
 //@   ensures (v is map[string]any) ==> (r is string) && r.(string) == "object"
+
+// C13: mktime of an instant on a whole second is exactly its Unix seconds (gmtime | mktime returns its
+// input on whole seconds): the nanosecond part contributes 0/1e9 = 0 and n + 0 = n for an integer-valued
+// float (two IEEE facts, assumed as axioms; float arithmetic is otherwise uninterpreted). Going through
+// a time.Duration instead would saturate beyond +-292 years.
+//@ axiom fdiv_zero_1e9: fdiv(float64(0), flit(4741671816366391296)) == float64(0)
+//@ axiom fadd_int_zero: forall n int :: {fadd(float64(n), float64(0))} fadd(float64(n), float64(0)) == float64(n)
+//@ func timeToEpoch(t time.Time) (r float64)
+//@   property C13
+//@   using fdiv_zero_1e9 fadd_int_zero
+//@   ensures nanoOf(t) == 0 ==> r == float64(unixOf(t))
